@@ -14,10 +14,14 @@ def main():
             if m.get("patch") and m["kind"] == "twin":
                 jobs.append((pid, "/repo", m))
     bad = 0
+    skipped = []
     with ProcessPoolExecutor(max_workers=16) as ex:
         for (pid, _, m), r in zip(jobs, ex.map(selftest._one, jobs)):
+            if r["status"] == "skipped":
+                skipped.append(f"{pid}:{m['id']}")
+                continue
             if r["status"] != "ok":
                 bad += 1
                 print(f"{pid} {m['id']} {r['status']} exit={r.get('exit')} {r.get('rules')} {r.get('detail','')[:260]}")
-    print(f"{len(jobs)} runs, {bad} alarms")
+    print(f"{len(jobs)} runs, {bad} alarms" + (f", {len(skipped)} skipped (patch no longer applies): {sorted(set(x.split(':')[1] for x in skipped))}" if skipped else ""))
 main()
